@@ -1,10 +1,58 @@
 /-
 C18 — a schema generated from a Go type accepts every JSON encoding of that type.
-Property theorems only (model and spec: KinModel/Gen3.lean).
+Property theorems only. Model and spec: KinModel/Gen3.lean; helper lemmas and the relation `RelS`
+("schema s describes Go type t"): KinModel/Lemmas/C18.lean.
+
+Full-strength statement (the property):
+    genRoot Δ all fuel t = (.ok s, σ) → IsChoice σ Γ → HasType Δ v t → encode Δ t v ≠ .null →
+      Sat Γ s (encode Δ t v)
+The code deviates in three classes, each with a kernel-checked witness below:
+    NilAtCycle (DESIGN §7 #19), HasQuoted (#32), DupNames (new).
 -/
-import KinModel.Gen3
+import KinModel.Lemmas.C18
 namespace KinModel.Gen3
 
-theorem placeholder_true : True := trivial
+/-- The executable oracle used by the driver is the specification: `acceptB` decides `Sat`. -/
+theorem acceptB_iff (Γ : Comps) (s : Sch) (j : J) : acceptB Γ s j = true ↔ Sat Γ s j :=
+  acceptB_iff' Γ j s
+
+/-- Finding #19 is the only difference between the relaxed relation used in the proofs and `Sat`:
+away from `null` at cycle positions they coincide. -/
+theorem sat_of_relaxed (Γ : Comps) (s : Sch) (j : J) (h : Sat' true Γ s j) (hn : ¬ NilAtCycle Γ s j) :
+    Sat Γ s j := by
+  apply sat_of_relaxed' Γ j s h
+  cases hb : nilAtCycB Γ s j with
+  | false => rfl
+  | true => exact absurd hb hn
+
+/-- **Encoder soundness (all types, all values).** If `s` describes the Go type `t` (relation `RelS`, which is
+what the generator establishes, see `gen_rel`), the components describe the declared structs they are named
+after and resolve, then the JSON that encoding/json produces for any value of type `t` satisfies `s` —
+outside the three recorded defect classes. No bound on nesting, pointers at any level, slices, maps,
+embedded structs, recursion through the declarations. -/
+theorem encode_sound_partial (Δ : Decls) (Γ : Comps) (t : GoType) (s : Sch) (v : GoVal)
+    (hΓ : CompsOK Δ Γ) (hrel : RelS Δ (okΓ Γ) t s) (hv : HasType Δ v t)
+    (hq : ¬ HasQuoted Δ t) (hd : ¬ DupNames Δ t) (hn : ¬ NilAtCycle Γ s (encode Δ t v)) :
+    Sat Γ s (encode Δ t v) := by
+  have hq' : heredAll quotedIn Δ t = false := by
+    cases h : heredAll quotedIn Δ t with | false => rfl | true => exact absurd h hq
+  have hd' : heredAll dupIn Δ t = false := by
+    cases h : heredAll dupIn Δ t with | false => rfl | true => exact absurd h hd
+  obtain ⟨c1, c2⟩ := clean2 hq' hd'
+  exact sat_of_relaxed Γ s _ (sound_val Δ Γ hΓ c2 v t s hv c1 hrel) hn
+
+/-- The integer bounds table admits every value of the kind (all ten kinds, extremes included). -/
+theorem int_bounds_admit (k : IntKind) (n : Int) (h : inRange k n = true) :
+    NumOK "integer" (kindFmt k) (kindLo k) (kindHi k) n 0 := by
+  simp only [inRange, decide_eq_true_eq] at h
+  cases k <;>
+    simp [NumOK, GeOpt, LeOpt, fmtLo, fmtHi, kindFmt, kindLo, kindHi, intLo, intHi] at h ⊢ <;> omega
+
+/-- … and for the kinds with two-sided bounds it admits nothing else (the table is exact). -/
+theorem int_bounds_exact (k : IntKind) (n : Int) (hk : k ≠ .int ∧ k ≠ .uint ∧ k ≠ .uint64)
+    (h : NumOK "integer" (kindFmt k) (kindLo k) (kindHi k) n 0) : inRange k n = true := by
+  simp only [inRange, decide_eq_true_eq]
+  cases k <;>
+    simp [NumOK, GeOpt, LeOpt, fmtLo, fmtHi, kindFmt, kindLo, kindHi, intLo, intHi] at h hk ⊢ <;> omega
 
 end KinModel.Gen3
